@@ -425,3 +425,242 @@ pub fn make_context() -> Arc<std::sync::Mutex<PeerContext>> {
     }))
 }
 
+
+// ---------------------------------------------------------------- independent UPDATE reader
+// (RFC 4271 / 4760 / 7911: IPv4 + IPv6 unicast), used by the C01 and C09 harnesses to turn the bytes a
+// session wrote into a mirror Adj-RIB-In without calling the decoder under test.
+use std::collections::BTreeMap;
+
+pub type Key = (u128, u8, u32); // address, prefix length, path id
+pub type Mirror = BTreeMap<Key, (Term, Term)>; // next hop, attributes (canonical terms)
+
+pub const KNOWN: [u8; 20] = [
+    1, 2, 3, 4, 5, 6, 7, 8, 9, 10, 14, 15, 16, 17, 18, 23, 26, 29, 32, 40,
+];
+pub fn canon_flags(code: u8) -> Option<u8> {
+    match code {
+        1 | 2 | 3 | 5 | 6 => Some(0x40),
+        4 | 9 | 10 | 14 | 15 | 26 | 29 => Some(0x80),
+        7 | 8 | 16 | 17 | 18 | 23 | 32 | 40 => Some(0xc0),
+        _ => None,
+    }
+}
+
+pub fn be32(b: &[u8]) -> u32 {
+    u32::from_be_bytes([b[0], b[1], b[2], b[3]])
+}
+
+/// canonical term of one raw attribute (same vocabulary as `xc::attr_t`, computed from wire bytes)
+pub fn raw_attr_t(flags: u8, code: u8, v: &[u8]) -> Term {
+    let Some(cf) = canon_flags(code) else {
+        return Term::tag(
+            "opq",
+            vec![Term::nat(code), Term::nat(flags), Term::bytes(v)],
+        );
+    };
+    if flags & !0x10 != cf {
+        return Term::tag(
+            "flagged",
+            vec![Term::nat(code), Term::nat(flags), Term::bytes(v)],
+        );
+    }
+    match code {
+        1 if v.len() == 1 => Term::tag("val", vec![Term::nat(code), Term::nat(v[0])]),
+        4 | 5 | 9 if v.len() == 4 => Term::tag("val", vec![Term::nat(code), Term::nat(be32(v))]),
+        2 => {
+            let mut segs = vec![Term::atom("aspath")];
+            let mut i = 0usize;
+            while i < v.len() {
+                if i + 2 > v.len() || i + 2 + 4 * (v[i + 1] as usize) > v.len() {
+                    return Term::tag("badpath", vec![Term::bytes(v)]);
+                }
+                let n = v[i + 1] as usize;
+                let mut seg = vec![Term::nat(v[i])];
+                for k in 0..n {
+                    seg.push(Term::nat(be32(&v[i + 2 + 4 * k..])));
+                }
+                segs.push(Term::list(seg));
+                i += 2 + 4 * n;
+            }
+            Term::list(segs)
+        }
+        8 | 10 if v.len() % 4 == 0 => {
+            let mut w = vec![Term::atom("words"), Term::nat(code)];
+            for c in v.chunks(4) {
+                w.push(Term::nat(be32(c)));
+            }
+            Term::list(w)
+        }
+        _ => Term::tag("bin", vec![Term::nat(code), Term::bytes(v)]),
+    }
+}
+
+pub fn read_prefixes(
+    mut b: &[u8],
+    addpath: bool,
+    v6: bool,
+    out: &mut Vec<Key>,
+) -> Result<(), &'static str> {
+    while !b.is_empty() {
+        let mut pid = 0u32;
+        if addpath {
+            if b.len() < 4 {
+                return Err("short-path-id");
+            }
+            pid = be32(b);
+            b = &b[4..];
+        }
+        if b.is_empty() {
+            return Err("short-prefix");
+        }
+        let bits = b[0];
+        let n = (bits as usize + 7) / 8;
+        let max = if v6 { 16 } else { 4 };
+        if n > max || b.len() < 1 + n {
+            return Err("bad-prefix");
+        }
+        let mut a = [0u8; 16];
+        a[..n].copy_from_slice(&b[1..1 + n]);
+        let addr = if v6 {
+            u128::from_be_bytes(a)
+        } else {
+            be32(&a[..4]) as u128
+        };
+        out.push((addr, bits, pid));
+        b = &b[1 + n..];
+    }
+    Ok(())
+}
+
+/// Apply every BGP message in `buf` (one flush) to the mirror; returns the number of frames.
+/// A key announced twice with different contents within one flush gets the value `amb`: the two
+/// UPDATEs come out of one `drain_messages` in hash-map order, so the survivor is not determined.
+pub fn apply_bytes(buf: &[u8], addpath: bool, m: &mut Mirror) -> Result<usize, &'static str> {
+    let mut written: BTreeMap<Key, (Term, Term)> = BTreeMap::new();
+    let mut pos = 0usize;
+    let mut frames = 0usize;
+    while pos < buf.len() {
+        if buf.len() - pos < 19 {
+            return Err("short-header");
+        }
+        if buf[pos..pos + 16].iter().any(|b| *b != 0xff) {
+            return Err("bad-marker");
+        }
+        let l = u16::from_be_bytes([buf[pos + 16], buf[pos + 17]]) as usize;
+        if l < 19 || l > 4096 || pos + l > buf.len() {
+            return Err("bad-length");
+        }
+        let ty = buf[pos + 18];
+        let body = &buf[pos + 19..pos + l];
+        pos += l;
+        frames += 1;
+        if ty != 2 {
+            continue;
+        }
+        if body.len() < 4 {
+            return Err("short-update");
+        }
+        let wl = u16::from_be_bytes([body[0], body[1]]) as usize;
+        if body.len() < 2 + wl + 2 {
+            return Err("bad-withdrawn-length");
+        }
+        let al = u16::from_be_bytes([body[2 + wl], body[3 + wl]]) as usize;
+        if body.len() < 4 + wl + al {
+            return Err("bad-attr-length");
+        }
+        if wl == 0 && al == 0 && body.len() == 4 {
+            // End-of-RIB: what was buffered before it (the initial dump) is ordered before
+            // everything after it
+            written.clear();
+            continue;
+        }
+        let mut gone: Vec<Key> = Vec::new();
+        read_prefixes(&body[2..2 + wl], addpath, false, &mut gone)?;
+        let mut reach: Vec<Key> = Vec::new();
+        read_prefixes(&body[4 + wl + al..], addpath, false, &mut reach)?;
+        let mut nh = Term::atom("none");
+        let mut attrs: Vec<(u8, Term)> = Vec::new();
+        let mut a = &body[4 + wl..4 + wl + al];
+        while !a.is_empty() {
+            if a.len() < 3 {
+                return Err("short-attr");
+            }
+            let (flags, code) = (a[0], a[1]);
+            let (len, hdr) = if flags & 0x10 != 0 {
+                if a.len() < 4 {
+                    return Err("short-attr");
+                }
+                (u16::from_be_bytes([a[2], a[3]]) as usize, 4)
+            } else {
+                (a[2] as usize, 3)
+            };
+            if a.len() < hdr + len {
+                return Err("attr-overrun");
+            }
+            let v = &a[hdr..hdr + len];
+            a = &a[hdr + len..];
+            match code {
+                3 => {
+                    if v.len() != 4 {
+                        return Err("bad-nexthop");
+                    }
+                    nh = Term::tag("v4", vec![Term::nat(be32(v))]);
+                }
+                14 => {
+                    if v.len() < 5 || (v[0], v[1], v[2]) != (0, 2, 1) {
+                        return Err("mp-reach-family");
+                    }
+                    let nl = v[3] as usize;
+                    if v.len() < 5 + nl {
+                        return Err("mp-reach-short");
+                    }
+                    let n = &v[4..4 + nl];
+                    let to128 = |b: &[u8]| {
+                        let mut x = [0u8; 16];
+                        x.copy_from_slice(b);
+                        u128::from_be_bytes(x)
+                    };
+                    nh = match nl {
+                        16 => Term::tag("v6", vec![Term::nat(to128(n))]),
+                        32 => Term::tag(
+                            "v6ll",
+                            vec![Term::nat(to128(&n[..16])), Term::nat(to128(&n[16..]))],
+                        ),
+                        _ => return Err("mp-reach-nexthop"),
+                    };
+                    read_prefixes(&v[5 + nl..], addpath, true, &mut reach)?;
+                }
+                15 => {
+                    if v.len() < 3 || (v[0], v[1], v[2]) != (0, 2, 1) {
+                        return Err("mp-unreach-family");
+                    }
+                    read_prefixes(&v[3..], addpath, true, &mut gone)?;
+                }
+                _ => attrs.push((code, raw_attr_t(flags, code, v))),
+            }
+        }
+        for k in gone {
+            m.remove(&k);
+        }
+        if !reach.is_empty() {
+            attrs.sort_by_key(|x| x.0); // stable
+            let mut at = vec![Term::atom("attrs")];
+            at.extend(attrs.into_iter().map(|x| x.1));
+            let at = Term::list(at);
+            for k in reach {
+                let v = (nh.clone(), at.clone());
+                match written.get(&k) {
+                    Some(w) if *w != v => {
+                        m.insert(k, (Term::atom("amb"), Term::atom("amb")));
+                    }
+                    _ => {
+                        written.insert(k, v.clone());
+                        m.insert(k, v);
+                    }
+                }
+            }
+        }
+    }
+    Ok(frames)
+}
+
